@@ -95,3 +95,31 @@ Proof.
   - reflexivity.
   - vm_compute. reflexivity.
 Qed.
+
+(* ------------------------------------------------------------------ non-vacuity of the shortcut theorems *)
+Require Import RV.Proofs.C16Shortcut RV.Proofs.C16Fill RV.Proofs.C16FreeBusy.
+
+Definition std_fuel (it : item) (r : trange) : nat := match_fuel (it_obj it) r.
+Definition ex_item : item :=
+  {| it_comp := NEvent; it_obj := OEvent ex_event; it_range := (Fin J10, PInf); it_id := 0 |}.
+Definition ex_item2 : item :=
+  {| it_comp := NTodo; it_obj := OTodo f4_todo; it_range := (Fin (J10 - 9 * 86400 - 1), Fin (J10 + 1)); it_id := 1 |}.
+
+Example item_ok_satisfiable : Forall (item_ok std_fuel) [ex_item; ex_item2].
+Proof.
+  apply Forall_cons; [|apply Forall_cons; [|apply Forall_nil]];
+    (split; [reflexivity|split; [closed|split; [intros H; exact H|split; [vm_compute; reflexivity|intros r; apply le_n]]]]).
+Qed.
+
+Example shortcut_premises_satisfiable :
+  let q := q_plain NEvent ex_range [] in
+  ranges_ok q /\
+  reference (fun _ _ => true) std_fuel q [ex_item; ex_item2] = Some [ex_item] /\
+  report (fun _ _ => true) std_fuel q [ex_item; ex_item2] = Some [ex_item].
+Proof.
+  cbv zeta. split; [|split].
+  - intros f [<-|[]] n ch [Heq|[]]. inversion Heq; subst. intros t ch2 [Heq2|[]]. inversion Heq2; subst.
+    intros r' [Heq3|[]]. inversion Heq3; subst. intros _. reflexivity.
+  - vm_compute. reflexivity.
+  - vm_compute. reflexivity.
+Qed.
